@@ -1,7 +1,7 @@
 """Per-property configuration shared by bin/check and bin/gen-manifest."""
 
 TRUSTED_BASE = [
-    "Coq 8.16.1 kernel and coqc; vm_compute (bytecode VM) for evaluating the model on cases and for finite table theorems; no native_compute",
+    "Coq 8.16.1 kernel and coqc; vm_compute (bytecode VM) for evaluating the model on cases and for finite table theorems; no native_compute; the thorough tier re-checks the compiled property file and its dependencies with coqchk -o (expected: Axioms: <none>)",
     "no Axiom/Parameter/Admitted in the development (grepped on every run); Print Assumptions output captured per theorem",
     "hand-written Gallina model of the mxj functions named in the theorems (coq/Model/*.v), tied to /repo by the correspondence check on every run",
     "harness mxjh (Go): generators, projection of observables (values with Go dynamic type tags, error class, panic flag, receiver after the call), Go-side oracle",
